@@ -10,7 +10,7 @@ from . import store as ST
 from .store import Row, same_rows_as_sets, api_rows, show_rows, row_of_event
 
 PROP = "C02"
-OPS = ["insert_one", "insert_many_new", "insert_many_upsert", "replace", "replace_last", "delete_live", "delete_missing", "reads"]
+OPS = ["insert_one", "insert_many_new", "insert_many_upsert", "insert_many_upsert_single", "replace", "replace_last", "delete_live", "delete_missing", "reads"]
 
 
 def setup(x, bk, n, nother=1):
@@ -87,6 +87,11 @@ def h_op(x, bk, op, n):
                 isnew = lambda q: And([q.id != r.id for r in A])  # noqa
                 obl.append(("new-row-present", Or([And(isnew(q), q.same_content(new[1])) for q in rows])))
             obl.append(("other-bucket-untouched", same_rows_as_sets(tab.get("B", []), B)))
+        elif op == "insert_many_upsert_single":
+            # a bulk insert of exactly one event that carries a live id is an upsert too
+            tgt = A[x.choice("target", n)]
+            b.insert([C.mk_event(x, new[0].start, new[0].dur, {"tag": x.wrap(new[0].tag)}, id=x.wrap(tgt.id), aligned=False)])
+            frame(be, ds, B, [Row(tgt.id, new[0].start, new[0].dur, new[0].tag) if r is tgt else r for r in A], obl)
         elif op == "replace":
             tgt = A[x.choice("target", n)]
             b.replace(x.wrap(tgt.id), ST.event_of_row(x, new[0]))
@@ -154,7 +159,8 @@ def harnesses(tier):
     ST.install_common()
     ST.install_sqlite()
     hs = []
-    bks = ["memory", "sqlite"]
+    ST.install_peewee()
+    bks = ["memory", "sqlite", "peewee"]
     sizes = [1, 2] if tier == "quick" else [1, 2, 3]
     for bk in bks:
         for op in OPS:
